@@ -242,7 +242,12 @@ DecRecAct(ms, h, r) ==
       formals |-> [i \in 1..Len(fidx) |-> <<body[fidx[i]].key.l[1], fval(body[fidx[i]])>>],
       extras |-> FlattenSeq([i \in 1..Len(oidx) |-> extrasOf(body[oidx[i]])])]
 DecCon(ms, h, c) ==
-  LET nsActs == [i \in 1..Len(c.pfxseq) |-> [op |-> "AddNs", h |-> h, p |-> c.pfxseq[i][1], u |-> c.pfxseq[i][2]]]
+  \* prefixes the enclosing document binds to another namespace (they will be renamed here) come last,
+  \* so that the name generated for them cannot collide with another prefix of the block
+  LET anc    == AncTbl(ms.mgr, MgrOf(ms, h))
+      late(e) == InheritedDifferently(anc, e[1], e[2])
+      ordered == SelectSeq(c.pfxseq, LAMBDA e : ~late(e)) \o SelectSeq(c.pfxseq, LAMBDA e : late(e))
+      nsActs == [i \in 1..Len(ordered) |-> [op |-> "AddNs", h |-> h, p |-> ordered[i][1], u |-> ordered[i][2]]]
                 \o (IF c.dflt # NONE THEN <<[op |-> "SetDefault", h |-> h, u |-> c.dflt]>> ELSE <<>>)
       r1 == RunX(ms, nsActs, 1)
   IN IF r1.exc # "none" THEN r1
